@@ -116,6 +116,11 @@ fn main() {
         "sndbuf_env": std::env::var("IPCMON_SNDBUF").ok()});
     let rep = Report::new(out.as_deref(), meta);
     let ctx = Ctx { family: family.clone(), seed, batch, nbatch, thorough, only_case, scale, rep: rep.clone(), opts };
+    {
+        let mut rb = ctx.replay(0);
+        rb["case"] = serde_json::Value::Null;
+        util::start_case_watchdog(rep.clone(), family.clone(), rb);
+    }
     match family.as_str() {
         "c01" => c01::run(&ctx),
         "c02" => c02::run(&ctx),
